@@ -360,7 +360,7 @@ func (db *DB) Apply(o Op, obs *Obs) ([]Outcome, error) {
 		}
 		n.Colls[o.Coll] = nc
 		return []Outcome{{State: n}}, nil
-	case "insert":
+	case "insert", "insertOne":
 		return db.applyInsert(o, obs, false)
 	case "save":
 		d := o.Docs[0]
